@@ -14,6 +14,7 @@ exit 3: the source no longer has the shape the extractor understands (the caller
 Sections (add a function `section_xxx(repo) -> str` and list it in SECTIONS):
   * validate_unit  — the if/elif name chain of synphot/units.py:validate_unit
   * specio         — keyword defaults of specio.write_fits_spec / read_fits_spec / read_ascii_spec
+  * specio shapes  — how the TUNIT string is formed; where fits.open stands relative to the try/finally
 """
 import argparse
 import ast
@@ -252,7 +253,84 @@ def section_specio(repo):
     return '\n'.join(lines).rstrip('\n')
 
 
-SECTIONS = [section_validate_unit, section_specio]
+# --------------------------------------------------------------------------- specio code shapes
+def section_specio_shapes(repo):
+    """two small decisions of specio.py that theorems depend on, recognised structurally:
+    how write_fits_spec turns a unit into the TUNIT string, and whether fits.open sits inside the
+    try/finally of read_fits_spec"""
+    tree = parse_file(os.path.join(repo, 'synphot', 'specio.py'))
+    wfn = find_func(tree, 'write_fits_spec')
+    # --- unit emission
+    emission = None
+    for node in ast.walk(wfn):
+        if isinstance(node, ast.Assign) and len(node.targets) == 1 and is_name(node.targets[0], 'wave_unit'):
+            src = ast.unparse(node.value)
+            if src == 'units.validate_unit(wave_unit).to_string().upper()':
+                emission = 'upper_always'
+            elif src == 'units.validate_unit(wave_unit).to_string()':
+                emission = 'keep_case'
+            elif src == '_unit_to_fits_str(units.validate_unit(wave_unit))':
+                emission = classify_unit_to_fits_str(tree)
+    if emission is None:
+        raise Unrecognised('write_fits_spec: the assignment of the TUNIT string of wave_unit was not recognised')
+    for node in ast.walk(wfn):
+        if isinstance(node, ast.Assign) and len(node.targets) == 1 and is_name(node.targets[0], 'flux_unit') \
+                and 'validate_unit' in ast.unparse(node.value):
+            if ast.unparse(node.value).replace('flux_unit', 'wave_unit') not in (
+                    'units.validate_unit(wave_unit).to_string().upper()', 'units.validate_unit(wave_unit).to_string()',
+                    '_unit_to_fits_str(units.validate_unit(wave_unit))'):
+                raise Unrecognised('write_fits_spec: the TUNIT string of flux_unit is formed differently')
+    # --- position of fits.open relative to the try/finally of read_fits_spec
+    rfn = find_func(tree, 'read_fits_spec')
+    tries = [n for n in rfn.body if isinstance(n, ast.Try)]
+    if len(tries) != 1 or not tries[0].finalbody:
+        raise Unrecognised('read_fits_spec: expected exactly one try/finally at function level')
+
+    def opens(stmts):
+        return any(isinstance(n, ast.Assign) and ast.unparse(n.value).startswith('fits.open(')
+                   for st in stmts for n in ast.walk(st))
+    before = opens(rfn.body[:rfn.body.index(tries[0])])
+    inside = opens(tries[0].body)
+    if before == inside:
+        raise Unrecognised('read_fits_spec: position of fits.open relative to the try/finally not recognised')
+    closes = 'fs.close()' in ''.join(ast.unparse(n) for n in tries[0].finalbody)
+    if not closes:
+        raise Unrecognised('read_fits_spec: the finally block does not close the file')
+    lines = ['/-- how `write_fits_spec` forms the `TUNITn` string of a validated unit: `"upper_if_same_unit"` =',
+             '`_unit_to_fits_str` (upper case only if `validate_unit` maps the upper-cased string back to the same',
+             'unit, `ValueError` keeps the case); `"upper_always"` = `.to_string().upper()`; `"keep_case"` -/',
+             'def unitEmission : String := %s' % lean_str(emission), '',
+             '/-- where `fs = fits.open(filename)` stands in `read_fits_spec`: `"before_try"` or `"inside_try"`',
+             '(the `finally` block calls `fs.close()`) -/',
+             'def fitsOpenPosition : String := %s' % lean_str('before_try' if before else 'inside_try')]
+    return '\n'.join(lines)
+
+
+def classify_unit_to_fits_str(tree):
+    fn = find_func(tree, '_unit_to_fits_str')
+    if len(fn.args.args) != 1:
+        raise Unrecognised('_unit_to_fits_str: one argument expected')
+    arg = fn.args.args[0].arg
+    body = [n for n in fn.body if not (isinstance(n, ast.Expr) and isinstance(n.value, ast.Constant))]
+    ok = (len(body) == 3 and isinstance(body[0], ast.Assign) and len(body[0].targets) == 1
+          and isinstance(body[0].targets[0], ast.Name) and ast.unparse(body[0].value) == '%s.to_string()' % arg
+          and isinstance(body[1], ast.Try) and isinstance(body[2], ast.Return))
+    if ok:
+        var = body[0].targets[0].id
+        tr = body[1]
+        ok = (len(tr.body) == 1 and isinstance(tr.body[0], ast.If) and not tr.body[0].orelse
+              and ast.unparse(tr.body[0].test) == 'units.validate_unit(%s.upper()) == %s' % (var, arg)
+              and len(tr.body[0].body) == 1 and ast.unparse(tr.body[0].body[0]) == '%s = %s.upper()' % (var, var)
+              and len(tr.handlers) == 1 and tr.handlers[0].type is not None
+              and ast.unparse(tr.handlers[0].type) == 'ValueError'
+              and len(tr.handlers[0].body) == 1 and isinstance(tr.handlers[0].body[0], ast.Pass)
+              and not tr.orelse and not tr.finalbody and is_name(body[2].value, var))
+    if not ok:
+        raise Unrecognised('_unit_to_fits_str does not have the recognised shape')
+    return 'upper_if_same_unit'
+
+
+SECTIONS = [section_validate_unit, section_specio, section_specio_shapes]
 
 HEADER = '''/-
   GENERATED by tools/extract_tables.py from the working tree of the repository under test
